@@ -17,6 +17,7 @@ import (
 	"go/token"
 	"os"
 	"path/filepath"
+	"regexp"
 	"sort"
 	"strings"
 )
@@ -29,12 +30,19 @@ type lgType struct {
 	slice   ast.Expr        // element type for `type T []E`
 	size    *ast.FuncDecl
 	writeTo *ast.FuncDecl
+	readFrom *ast.FuncDecl
+	nested []string // (non-array) struct fields written through their own writeTo: their fields are spliced into the schema (Kafka's is flat)
+	sizeWhy string // non-empty: size() could not be translated (structure and writeTo only)
 	nilFlags map[string]bool // fields compared with nil: an extra Bool field `<F>_isNil`
 }
 
 type lgCtx struct {
-	fset  *token.FileSet
-	types map[string]*lgType
+	fset    *token.FileSet
+	types   map[string]*lgType
+	apiKeys map[string]int // root package `const ( produce apiKey = 0 … )`
+	versioned map[string]bool // types whose layout depends on a `v apiVersion` field
+	writerInfo [][3]string    // translated write*RequestV<N>: name, api key, version
+	msgSetOK   bool           // messageSize / messageSetSize / writeMessage / compressMessageSet translated
 }
 
 type untranslatable struct{ why string }
@@ -520,7 +528,22 @@ func (c *lgCtx) translate(t *lgType) (out string, err error) {
 	rw, _ := recvOf(t.writeTo)
 	se := &lgEnv{c: c, t: t, recv: rs, vars: map[string]string{}}
 	we := &lgEnv{c: c, t: t, recv: rw, vars: map[string]string{}}
-	size := se.sizeBody(t.size.Body)
+	size, sizeWhy := func() (s string, why string) {
+		defer func() {
+			if r := recover(); r != nil {
+				if u, ok := r.(untranslatable); ok {
+					why = u.why
+					return
+				}
+				panic(r)
+			}
+		}()
+		return se.sizeBody(t.size.Body), ""
+	}()
+	if sizeWhy != "" {
+		t.nilFlags = map[string]bool{}
+	}
+	t.sizeWhy = sizeWhy
 	write := we.writeStmts(t.writeTo.Body.List)
 	if t.st != nil {
 		fmt.Fprintf(&sb, "structure %s where\n", t.name)
@@ -539,6 +562,11 @@ func (c *lgCtx) translate(t *lgType) (out string, err error) {
 		}
 	} else {
 		fmt.Fprintf(&sb, "structure %s where\n  items : List %s\n  isNil : Bool\n", t.name, c.leanType(t.slice))
+	}
+	if sizeWhy != "" {
+		fmt.Fprintf(&sb, "/-- size() of %s is not translated (%s): structure and writeTo only, no `legacy_size` -/\n", t.name, strings.ReplaceAll(sizeWhy, "-/", "- /"))
+		fmt.Fprintf(&sb, "def %s.writeTo (t : %s) : Bytes :=\n  %s\n", t.name, t.name, write)
+		return sb.String(), nil
 	}
 	fmt.Fprintf(&sb, "def %s.size (t : %s) : Int :=\n  %s\n", t.name, t.name, size)
 	fmt.Fprintf(&sb, "def %s.writeTo (t : %s) : Bytes :=\n  %s\n", t.name, t.name, write)
@@ -582,13 +610,38 @@ func extractLegacy(repo, root string) error {
 	if !ok {
 		return fmt.Errorf("package kafka not found in %s", repo)
 	}
-	c := &lgCtx{fset: fset, types: map[string]*lgType{}}
+	c := &lgCtx{fset: fset, types: map[string]*lgType{}, apiKeys: map[string]int{}, versioned: map[string]bool{}}
 	decls := map[string]*lgType{}
 	var emitted []string
+	var writers []*ast.FuncDecl
+	msgFuncs := map[string]*ast.FuncDecl{}
+	type emission struct {
+		typ      string
+		key      int
+		versions []int
+	}
+	var emissions []emission
+	var respEmissions []emission
 	for _, f := range pkg.Files {
 		for _, d := range f.Decls {
 			switch x := d.(type) {
 			case *ast.GenDecl:
+				if x.Tok == token.CONST {
+					for _, sp := range x.Specs {
+						vs := sp.(*ast.ValueSpec)
+						if id, ok := vs.Type.(*ast.Ident); ok && id.Name == "apiKey" {
+							for i, n := range vs.Names {
+								if i < len(vs.Values) {
+									if lit, ok := vs.Values[i].(*ast.BasicLit); ok {
+										var k int
+										fmt.Sscan(lit.Value, &k)
+										c.apiKeys[n.Name] = k
+									}
+								}
+							}
+						}
+					}
+				}
 				if x.Tok != token.TYPE {
 					continue
 				}
@@ -605,14 +658,23 @@ func extractLegacy(repo, root string) error {
 					}
 					if t.st != nil || t.slice != nil {
 						if prev, ok := decls[t.name]; ok {
-							t.size, t.writeTo = prev.size, prev.writeTo
+							t.size, t.writeTo, t.readFrom = prev.size, prev.writeTo, prev.readFrom
 						}
 						decls[t.name] = t
 					}
 				}
 			case *ast.FuncDecl:
 				_, rt := recvOf(x)
+				if x.Body != nil && ((rt == "" && (x.Name.Name == "messageSize" || x.Name.Name == "messageSetSize" || x.Name.Name == "compressMessageSet")) ||
+					(rt == "writeBuffer" && x.Name.Name == "writeMessage")) {
+					msgFuncs[x.Name.Name] = x
+					continue
+				}
 				if rt == "" || x.Body == nil {
+					continue
+				}
+				if rt == "writeBuffer" && strings.HasPrefix(x.Name.Name, "write") && strings.Contains(x.Name.Name, "RequestV") {
+					writers = append(writers, x)
 					continue
 				}
 				t, ok := decls[rt]
@@ -625,6 +687,8 @@ func extractLegacy(repo, root string) error {
 					t.size = x
 				case "writeTo":
 					t.writeTo = x
+				case "readFrom":
+					t.readFrom = x
 				}
 			}
 		}
@@ -632,6 +696,15 @@ func extractLegacy(repo, root string) error {
 	for n, t := range decls {
 		if t.size != nil && t.writeTo != nil && (t.st != nil || t.slice != nil) {
 			c.types[n] = t
+			if t.st != nil {
+				for _, f := range t.st.Fields.List {
+					for _, nm := range f.Names {
+						if nm.Name == "v" {
+							c.versioned[n] = true
+						}
+					}
+				}
+			}
 		}
 	}
 	// emitted types: 4th argument of c.writeRequest(apiKey, version, id, REQ)
@@ -661,6 +734,7 @@ func extractLegacy(repo, root string) error {
 					note(p.Names, p.Type)
 				}
 			}
+			nEm := len(emissions)
 			ast.Inspect(fd.Body, func(n ast.Node) bool {
 				switch x := n.(type) {
 				case *ast.ValueSpec:
@@ -715,9 +789,56 @@ func extractLegacy(repo, root string) error {
 						tn = "?" + strings.Join(strings.Fields(func() string { var sb strings.Builder; printer.Fprint(&sb, fset, x.Args[3]); return sb.String() }()), " ")
 					}
 					emitted = append(emitted, tn)
+					// api key constant and the version(s) this call site sends: a literal vN, or the versions passed to
+					// negotiateVersion(<same key>, …) in the same function
+					if kid, ok := x.Args[0].(*ast.Ident); ok {
+						if kn, ok := c.apiKeys[kid.Name]; ok {
+							var vs []int
+							if vid, ok := x.Args[1].(*ast.Ident); ok && len(vid.Name) > 1 && vid.Name[0] == 'v' {
+								var k int
+								if _, err := fmt.Sscanf(vid.Name[1:], "%d", &k); err == nil {
+									vs = []int{k}
+								}
+							}
+							if vs == nil {
+								ast.Inspect(fd.Body, func(m ast.Node) bool {
+									if ce, ok := m.(*ast.CallExpr); ok {
+										if se, ok := ce.Fun.(*ast.SelectorExpr); ok && se.Sel.Name == "negotiateVersion" && len(ce.Args) >= 2 {
+											if k0, ok := ce.Args[0].(*ast.Ident); ok && k0.Name == kid.Name {
+												for _, a := range ce.Args[1:] {
+													if ai, ok := a.(*ast.Ident); ok && len(ai.Name) > 1 && ai.Name[0] == 'v' {
+														var k int
+														if _, err := fmt.Sscanf(ai.Name[1:], "%d", &k); err == nil {
+															vs = append(vs, k)
+														}
+													}
+												}
+											}
+										}
+									}
+									return true
+								})
+							}
+							emissions = append(emissions, emission{tn, kn, vs})
+						}
+					}
 				}
 				return true
 			})
+			// the response read in the same function: a local of a type that has a reader
+			if len(emissions) == nEm+1 {
+				em := emissions[nEm]
+				var names []string
+				for _, tn := range locals {
+					names = append(names, tn)
+				}
+				sort.Strings(names)
+				for _, tn := range uniq(names) {
+					if t, ok := c.types[tn]; ok && tn != em.typ && (t.readFrom != nil || strings.Contains(tn, "Response")) {
+						respEmissions = append(respEmissions, emission{tn, em.key, em.versions})
+					}
+				}
+			}
 		}
 	}
 	sort.Strings(emitted)
@@ -747,10 +868,61 @@ func extractLegacy(repo, root string) error {
 	}
 	var sb strings.Builder
 	sb.WriteString("-- GENERATED by /verif/go/extract (legacy) from /repo/*.go — do not edit\n")
-	sb.WriteString("import KafkaVerif.Base.LegacyWire\nnamespace KV.Gen.Legacy\nopen KV KV.Legacy\n\n")
+	sb.WriteString("import KafkaVerif.Base.LegacyWire\nimport KafkaVerif.Base.LegacyRead\nimport KafkaVerif.Lemmas.LegacyModel\nimport KafkaVerif.Lemmas.LegacyFlat\nnamespace KV.Gen.Legacy\nopen KV KV.Legacy KV.Codec\n\n")
+	sb.WriteString("/-- proves `encode (T.ty t) (T.val t) = T.writeTo t`: unfold, split the version tests, rewrite the model encoder into the\nwriteBuffer primitives (nested `legacy_model` theorems are simp lemmas) -/\n")
+	sb.WriteString("syntax \"legacy_model_rest\" : tactic\nmacro_rules\n  | `(tactic| legacy_model_rest) => `(tactic|\n      (repeat' split\n       all_goals (first | rfl | (simp [enc_struct, encFields_cons, encFields_nil, enc_int8, enc_int16, enc_int32, enc_int64, enc_bool, enc_string, enc_bytes, enc_array, enc_array_null] <;> try (simp [writeStringArray, writeInt32Array, writeArray, writeArrayLen, writeInt32, writeString, writeInt32_fun, writeString_fun])))))\n\n")
+	sb.WriteString("syntax \"legacy_model_tac \" ident ident ident : tactic\nmacro_rules\n  | `(tactic| legacy_model_tac $a $b $w) => `(tactic|\n      (simp only [$a:ident, $b:ident, $w:ident]\n       repeat' split\n       all_goals (first | rfl | (simp [enc_struct, encFields_cons, encFields_nil, enc_int8, enc_int16, enc_int32, enc_int64, enc_bool, enc_string, enc_bytes, enc_array, enc_array_null] <;> try (simp [writeStringArray, writeInt32Array, writeArray, writeArrayLen, writeInt32, writeString, writeInt32_fun, writeString_fun])))))\n\n")
 	sb.WriteString("/-- the one tactic that proves every `legacy_size`: unfold the two methods, rewrite written lengths into announced\nsizes (nested `legacy_size` theorems are simp lemmas), close the linear arithmetic -/\n")
 	sb.WriteString("syntax \"legacy_size_tac \" ident ident : tactic\nmacro_rules\n  | `(tactic| legacy_size_tac $s $w) => `(tactic|\n      (simp only [$s:ident, $w:ident]\n       repeat' split\n       all_goals ((try simp_all [len_writeArray', len_writeEach, sizeofArray, sumInt_const,\n         sizeofInt8, sizeofInt16, sizeofInt32, sizeofInt64, sizeofBool, sizeofInt32Array, sizeofStringArray, sumInt]) <;> (try omega))))\n\n")
 	translated := map[string]bool{}
+	writeOnly := map[string]bool{}
+	readerOK := map[string]bool{}
+	var noReader []string
+	// types read by the reflective read(): locals passed to (*Conn).readResponse(size, &x), and the struct types they contain
+	reflReach := map[string]bool{}
+	for _, f := range pkg.Files {
+		for _, d := range f.Decls {
+			fd, ok := d.(*ast.FuncDecl)
+			if !ok || fd.Body == nil {
+				continue
+			}
+			locals := map[string]string{}
+			ast.Inspect(fd.Body, func(n ast.Node) bool {
+				switch x := n.(type) {
+				case *ast.ValueSpec:
+					if id, ok := x.Type.(*ast.Ident); ok {
+						for _, nm := range x.Names {
+							locals[nm.Name] = id.Name
+						}
+					}
+				case *ast.CallExpr:
+					if sel, ok := x.Fun.(*ast.SelectorExpr); ok && sel.Sel.Name == "readResponse" && len(x.Args) == 2 {
+						if u, ok := x.Args[1].(*ast.UnaryExpr); ok && u.Op == token.AND {
+							if id, ok := u.X.(*ast.Ident); ok && locals[id.Name] != "" {
+								reflReach[locals[id.Name]] = true
+							}
+						}
+					}
+				}
+				return true
+			})
+		}
+	}
+	for changed := true; changed; {
+		changed = false
+		for n := range reflReach {
+			if t, ok := c.types[n]; ok {
+				for _, d := range c.deps(t) {
+					if !reflReach[d] {
+						reflReach[d] = true
+						changed = true
+					}
+				}
+			}
+		}
+	}
+	schemaOK := map[string]bool{}
+	var noSchema []string
 	var failed []string
 	for _, n := range order {
 		t := c.types[n]
@@ -769,9 +941,54 @@ func extractLegacy(repo, root string) error {
 			failed = append(failed, fmt.Sprintf("(%q, %q)", n, err.Error()))
 			continue
 		}
-		translated[n] = true
+		if t.sizeWhy != "" {
+			failed = append(failed, fmt.Sprintf("(%q, %q)", n, "size(): "+t.sizeWhy))
+			writeOnly[n] = true
+		} else {
+			translated[n] = true
+		}
+		sb.WriteString(src + "\n")
+		if sch, err := c.translateSchema(t); err == nil {
+			schemaOK[n] = true
+			sb.WriteString(sch + "\n")
+		} else {
+			noSchema = append(noSchema, fmt.Sprintf("(%q, %q)", n, err.Error()))
+		}
+		// the reader: readFrom, or (types reached from a value passed to (*Conn).readResponse) the reflective read
+		switch {
+		case t.readFrom != nil && reflReach[n]:
+			noReader = append(noReader, fmt.Sprintf("(%q, %q)", n, "has readFrom but is read reflectively"))
+		case t.readFrom != nil || reflReach[n]:
+			if rd, err := c.translateReader(t, readerOK, t.readFrom == nil); err == nil {
+				readerOK[n] = true
+				sb.WriteString(rd + "\n")
+			} else {
+				noReader = append(noReader, fmt.Sprintf("(%q, %q)", n, err.Error()))
+			}
+		}
+	}
+	if ms, err := c.translateMsgSet(msgFuncs); err == nil {
+		sb.WriteString(ms + "\n")
+		c.msgSetOK = true
+	} else {
+		failed = append(failed, fmt.Sprintf("(%q, %q)", "message-set writer (messageSize, messageSetSize, writeMessage, compressMessageSet)", err.Error()))
+	}
+	sort.Slice(writers, func(i, j int) bool { return writers[i].Name.Name < writers[j].Name.Name })
+	var wl []string
+	for _, fd := range writers {
+		if !translated["requestHeader"] {
+			failed = append(failed, fmt.Sprintf("(%q, %q)", fd.Name.Name, "requestHeader untranslated"))
+			continue
+		}
+		src, err := c.translateWriter(fd)
+		if err != nil {
+			failed = append(failed, fmt.Sprintf("(%q, %q)", fd.Name.Name, err.Error()))
+			continue
+		}
+		wl = append(wl, fmt.Sprintf("%q", fd.Name.Name))
 		sb.WriteString(src + "\n")
 	}
+	fmt.Fprintf(&sb, "/-- write.go request writers translated (each has `legacy_size` and `legacy_header_version`) -/\ndef writers : List String := [%s]\n", strings.Join(wl, ", "))
 	var tl []string
 	for _, n := range order {
 		if translated[n] {
@@ -783,11 +1000,169 @@ func extractLegacy(repo, root string) error {
 		el = append(el, fmt.Sprintf("%q", n))
 	}
 	fmt.Fprintf(&sb, "/-- types with both size() and writeTo() that were translated (each has a `legacy_size` theorem above) -/\ndef translated : List String := [%s]\n", strings.Join(tl, ", "))
+	fmt.Fprintf(&sb, "/-- translated types whose writeTo could not be read as a schema, with the reason -/\ndef noSchema : List (String × String) := [%s]\n", strings.Join(noSchema, ", "))
+	var rl []string
+	for _, n := range order {
+		if readerOK[n] {
+			rl = append(rl, n)
+		}
+	}
+	var rq, rt []string
+	for _, n := range rl {
+		rq = append(rq, fmt.Sprintf("%q", n))
+		z := n + ".zero"
+		if c.versioned[n] {
+			z = "(" + n + ".zero v)"
+		}
+		rt = append(rt, fmt.Sprintf("(%q, fun %s bs => (%s.readFrom %s bs).map fun (t, r) => (%s.writeTo t, r))", n, map[bool]string{true: "v", false: "_"}[c.versioned[n]], n, z, n))
+	}
+	fmt.Fprintf(&sb, "/-- types whose reader was translated (each has `read_write` above) -/\ndef readers : List String := [%s]\n", strings.Join(rq, ", "))
+	fmt.Fprintf(&sb, "/-- types with a readFrom / read reflectively whose reader is not translated, with the reason -/\ndef noReader : List (String × String) := [%s]\n", strings.Join(noReader, ", "))
+	fmt.Fprintf(&sb, "/-- the translated readers followed by the same type's writer, for the oracle: version, body ↦ (re-encoded bytes, bytes left) -/\ndef rewriters : List (String × (Int → Bytes → Option (Bytes × Bytes))) := [\n  %s]\n", strings.Join(rt, ",\n  "))
 	fmt.Fprintf(&sb, "/-- types passed to (*Conn).writeRequest -/\ndef emitted : List String := [%s]\n", strings.Join(el, ", "))
 	fmt.Fprintf(&sb, "/-- types the translator does not handle, with the reason -/\ndef untranslated : List (String × String) := [%s]\n", strings.Join(failed, ", "))
 	sb.WriteString("/-- every emitted type has its theorem -/\ntheorem emitted_covered : emitted.all (fun n => translated.contains n) = true := by decide\n")
 	sb.WriteString("\nend KV.Gen.Legacy\n")
-	return os.WriteFile(filepath.Join(root, "lean", "KafkaVerif", "Gen", "Legacy.lean"), []byte(sb.String()), 0o644)
+	if err := os.WriteFile(filepath.Join(root, "lean", "KafkaVerif", "Gen", "Legacy.lean"), []byte(sb.String()), 0o644); err != nil {
+		return err
+	}
+	// ---- Gen/LegacyGolden.lean: what Conn emits is the reference encoding under the golden schema
+	var gb strings.Builder
+	gb.WriteString("-- GENERATED by /verif/go/extract (legacy) from /repo/*.go — do not edit\n")
+	gb.WriteString("import KafkaVerif.Gen.Legacy\nimport KafkaVerif.Props.C04\nimport KafkaVerif.Spec.KafkaSchemas\nnamespace KV.Gen.Legacy\nopen KV KV.Legacy KV.Codec\n\n")
+	gb.WriteString("/-- from `goldenTy … = some g` with `g` equal (decidably) to the writer's own schema, and the writer being the model\nencoder at that schema: the bytes are the reference encoding under the golden schema (strings written non-null: `Spec.denull`) -/\n")
+	gb.WriteString("theorem eq_spec_of {ty : Ty} {v : Val} {bytes : Bytes} {og : Option Ty}\n    (hg : og.map (fun g => Ty.beq ty (Spec.denull g)) = some true) (hm : encode ty v = bytes) (hwf : ty.wf = true) (hwt : wt ty v = true) :\n    ∃ g, og = some g ∧ bytes = Spec.encode (Spec.denull g) v := by\n  cases og with\n  | none => simp at hg\n  | some g =>\n    simp only [Option.map_some, Option.some.injEq] at hg\n    have := Ty.eq_of_beq ty (Spec.denull g) hg\n    exact ⟨g, rfl, by rw [← hm, ← this]; exact KV.C04.encode_eq_spec ty v hwf hwt⟩\n\n")
+	gb.WriteString(`/-- conn.go writeRequest: the header (Size = hdr.size() + req.size() - 4) followed by the request body is the Kafka
+request frame (header v1, non-null client id) around that body -/
+theorem legacy_frame_eq_spec (h : requestHeader) (body : Bytes)
+    (hsize : h.Size = requestHeader.size h + body.length - 4)
+    (hk : KV.Codec.inRange 16 h.ApiKey = true) (hv : KV.Codec.inRange 16 h.ApiVersion = true)
+    (hc : KV.Codec.inRange 32 h.CorrelationID = true) (hcid : h.ClientID.length < 2 ^ 15)
+    (hlen : requestHeader.size h + body.length - 4 < 2 ^ 31) :
+    requestHeader.writeTo h ++ body =
+      Spec.frameRequest false h.ApiKey h.ApiVersion h.CorrelationID h.ClientID body := by
+  have e16 : ∀ i, KV.Codec.inRange 16 i = true → Wire.encInt 2 i = Spec.sint 2 i :=
+    fun i hi => KV.C04.encInt_eq_sint_of_inRange 2 (by decide) i hi
+  have e32 : ∀ i, KV.Codec.inRange 32 i = true → Wire.encInt 4 i = Spec.sint 4 i :=
+    fun i hi => KV.C04.encInt_eq_sint_of_inRange 4 (by decide) i hi
+  have hsz : requestHeader.size h = 12 + (2 + (h.ClientID.length : Int)) := by
+    simp [requestHeader.size, sizeofString]
+  have hcl : KV.Codec.inRange 16 (h.ClientID.length : Int) = true := by
+    simp only [KV.Codec.inRange, Bool.and_eq_true, decide_eq_true_eq]; constructor <;> omega
+  have hS' : h.Size = 12 + (2 + (h.ClientID.length : Int)) + body.length - 4 := by rw [hsize, hsz]
+  have hlen' : 12 + (2 + (h.ClientID.length : Int)) + body.length - 4 < 2 ^ 31 := by rw [hsz] at hlen; exact hlen
+  have hS : KV.Codec.inRange 32 h.Size = true := by
+    rw [hS']
+    simp only [KV.Codec.inRange, Bool.and_eq_true, decide_eq_true_eq]; constructor <;> omega
+  have sl : ∀ (k : Nat) (i : Int), (Spec.sint k i).length = k := by
+    intro k i; simp [Spec.sint, Spec.unsignedBE]
+  have hw : requestHeader.writeTo h ++ body =
+      Spec.sint 4 h.Size ++ (Spec.sint 2 h.ApiKey ++ Spec.sint 2 h.ApiVersion ++ Spec.sint 4 h.CorrelationID ++
+        (Spec.sint 2 (h.ClientID.length : Int) ++ h.ClientID) ++ body) := by
+    simp only [requestHeader.writeTo, writeInt32, writeInt16, writeString, List.append_assoc]
+    rw [e32 _ hS, e16 _ hk, e16 _ hv, e32 _ hc, e16 _ hcl]
+  rw [hw]
+  have hks : Spec.kString false false h.ClientID = Spec.sint 2 (h.ClientID.length : Int) ++ h.ClientID := by
+    simp [Spec.kString]
+  unfold Spec.frameRequest Spec.frame
+  simp only [Bool.false_eq_true, if_false, hks]
+  have key : ∀ (X : Bytes), ((X.length : Nat) : Int) = h.Size → Spec.sint 4 h.Size ++ X = Spec.sint 4 (X.length : Int) ++ X := by
+    intro X hx; rw [hx]
+  apply key
+  simp only [List.length_append, sl]
+  rw [hS']
+  omega
+
+`)
+	sort.Slice(emissions, func(i, j int) bool {
+		if emissions[i].typ != emissions[j].typ {
+			return emissions[i].typ < emissions[j].typ
+		}
+		return emissions[i].key < emissions[j].key
+	})
+	seenE := map[string]bool{}
+	var gl []string
+	for _, e := range emissions {
+		if !schemaOK[e.typ] {
+			continue
+		}
+		for _, k := range e.versions {
+			id := fmt.Sprintf("%s.v%d", e.typ, k)
+			if seenE[id] {
+				continue
+			}
+			seenE[id] = true
+			hv, simpv := "", ""
+			if c.versioned[e.typ] {
+				hv = fmt.Sprintf(" (hv : t.v = %d)", k)
+				simpv = ", hv"
+			}
+			fmt.Fprintf(&gb, "/-- %s sent as api key %d version %d: schema = golden table, bytes = reference encoding -/\n", e.typ, e.key, k)
+			fmt.Fprintf(&gb, "theorem %s.legacy_eq_spec_v%d (t : %s)%s (hwt : wt (%s.ty t) (%s.val t) = true) :\n    ∃ g, Spec.goldenTy %d true %d (%s.ty t) = some g ∧ %s.writeTo t = Spec.encode (Spec.denull g) (%s.val t) := by\n",
+				e.typ, k, e.typ, hv, e.typ, e.typ, e.key, k, e.typ, e.typ, e.typ)
+			fmt.Fprintf(&gb, "  apply eq_spec_of (ty := %s.ty t) (v := %s.val t) ?_ (%s.legacy_model t) ?_ hwt\n", e.typ, e.typ, e.typ)
+			fmt.Fprintf(&gb, "  · simp only [%s.ty%s]; decide\n  · simp only [%s.ty%s]; decide\n\n", e.typ, simpv, e.typ, simpv)
+			gl = append(gl, fmt.Sprintf("(%q, %d, %d)", e.typ, e.key, k))
+		}
+	}
+	// responses: the type read in the function that sends (key, versions)
+	sort.Slice(respEmissions, func(i, j int) bool {
+		if respEmissions[i].typ != respEmissions[j].typ {
+			return respEmissions[i].typ < respEmissions[j].typ
+		}
+		return respEmissions[i].key < respEmissions[j].key
+	})
+	var rgl, rskip []string
+	for _, e := range respEmissions {
+		if !schemaOK[e.typ] || !readerOK[e.typ] {
+			rskip = append(rskip, fmt.Sprintf("%q", e.typ))
+			continue
+		}
+		for _, k := range e.versions {
+			id := fmt.Sprintf("resp %s.v%d", e.typ, k)
+			if seenE[id] {
+				continue
+			}
+			seenE[id] = true
+			hv, simpv, zero := "", "", e.typ+".zero"
+			if c.versioned[e.typ] {
+				hv = fmt.Sprintf(" (hv : t.v = %d)", k)
+				simpv = ", hv"
+				zero = fmt.Sprintf("(%s.zero %d)", e.typ, k)
+			}
+			fmt.Fprintf(&gb, "/-- %s read as the response of api key %d version %d: the writer's schema is the golden response schema (up to string\nnullability), its bytes are the reference encoding, and the reader Conn uses gives the value back from exactly those bytes -/\n", e.typ, e.key, k)
+			fmt.Fprintf(&gb, "theorem %s.legacy_read_spec_v%d (t : %s)%s (hwt : wt (%s.ty t) (%s.val t) = true) (hok : %s.Ok t) (rest : Bytes) :\n    ∃ g, Spec.goldenTy %d false %d (%s.ty t) = some g ∧\n      %s.readFrom %s (Spec.encode (Spec.denull g) (%s.val t) ++ rest) = some (t, rest) := by\n",
+				e.typ, k, e.typ, hv, e.typ, e.typ, e.typ, e.key, k, e.typ, e.typ, zero, e.typ)
+			fmt.Fprintf(&gb, "  have h1 : ∃ g, Spec.goldenTy %d false %d (%s.ty t) = some g ∧ %s.writeTo t = Spec.encode (Spec.denull g) (%s.val t) := by\n", e.key, k, e.typ, e.typ, e.typ)
+			fmt.Fprintf(&gb, "    apply eq_spec_of (ty := %s.ty t) (v := %s.val t) ?_ (%s.legacy_model t) ?_ hwt\n", e.typ, e.typ, e.typ)
+			fmt.Fprintf(&gb, "    · simp only [%s.ty%s]; decide\n    · simp only [%s.ty%s]; decide\n", e.typ, simpv, e.typ, simpv)
+			fmt.Fprintf(&gb, "  obtain ⟨g, hg, hw⟩ := h1\n  refine ⟨g, hg, ?_⟩\n  rw [← hw]\n")
+			if c.versioned[e.typ] {
+				fmt.Fprintf(&gb, "  have := %s.read_write t hok rest\n  rwa [hv] at this\n\n", e.typ)
+			} else {
+				fmt.Fprintf(&gb, "  exact %s.read_write t hok rest\n\n", e.typ)
+			}
+			rgl = append(rgl, fmt.Sprintf("(%q, %d, %d)", e.typ, e.key, k))
+		}
+	}
+	fmt.Fprintf(&gb, "/-- (type, api key, version) of every response type covered by `legacy_read_spec` -/\ndef goldenReadCovered : List (String × Nat × Nat) := [%s]\n", strings.Join(rgl, ", "))
+	fmt.Fprintf(&gb, "/-- response types seen next to a writeRequest call whose schema or reader is not translated -/\ndef goldenReadSkipped : List String := [%s]\n\n", strings.Join(uniq(rskip), ", "))
+	for _, wi := range c.writerInfo {
+		name, key, ver := wi[0], wi[1], wi[2]
+		hyp, rw := "", ""
+		if strings.Contains(name, "Produce") {
+			hyp = " (hnil : a.transactionalID = none)"
+			rw = ", hnil"
+		}
+		fmt.Fprintf(&gb, "/-- the body %s writes reads as a value of the golden schema of api key %s version %s, and is the model (hence, for\nwell-typed values, the reference) encoding of that value under a type equal to the golden one up to string nullability -/\n", name, key, ver)
+		fmt.Fprintf(&gb, "theorem %s.legacy_eq_spec (a : %s.Args)%s :\n    ∃ g tw v, Spec.goldenTy %s true %s .bool = some g ∧ unflatten g (%s.prims a) = some (tw, v, []) ∧\n      Spec.denull tw = Spec.denull g ∧ flat (%s.prims a) = encode tw v := by\n", name, name, hyp, key, ver, name, name)
+		fmt.Fprintf(&gb, "  have hg : (Spec.goldenTy %s true %s .bool).isSome = true := by decide\n", key, ver)
+		fmt.Fprintf(&gb, "  obtain ⟨g, hgg⟩ := Option.isSome_iff_exists.mp hg\n")
+		fmt.Fprintf(&gb, "  have hu : ∃ tw v, unflatten g (%s.prims a) = some (tw, v, []) := by\n    have : g = (Spec.goldenTy %s true %s .bool).getD .bool := by rw [hgg]; rfl\n    subst this\n    simp only [%s.prims%s]\n    exact ⟨_, _, rfl⟩\n", name, key, ver, name, rw)
+		fmt.Fprintf(&gb, "  obtain ⟨tw, v, hu⟩ := hu\n  obtain ⟨h1, h2⟩ := unflatten_sound g _ tw v hu\n  exact ⟨g, tw, v, hgg, hu, h2, h1⟩\n\n")
+	}
+	fmt.Fprintf(&gb, "/-- (type, api key, version) of every `(*Conn).writeRequest` call site covered above -/\ndef goldenCovered : List (String × Nat × Nat) := [%s]\n\nend KV.Gen.Legacy\n", strings.Join(gl, ", "))
+	return os.WriteFile(filepath.Join(root, "lean", "KafkaVerif", "Gen", "LegacyGolden.lean"), []byte(gb.String()), 0o644)
 }
 
 func uniq(s []string) []string {
@@ -798,4 +1173,614 @@ func uniq(s []string) []string {
 		}
 	}
 	return out
+}
+
+// ---------------------------------------------------------------------------------------------------------
+// write.go `write*RequestV<N>` functions: header literal + hand-computed h.Size + body writes
+
+var writerAPIs = map[string]int{"Produce": 0, "Fetch": 1, "ListOffset": 2, "ListOffsets": 2, "Metadata": 3}
+
+type wEnv struct {
+	c      *lgCtx
+	params map[string]string // Go parameter name -> Lean type
+	locals map[string]bool   // `var size int32` …: values fixed by the statements before the header (fields of Args)
+}
+
+func (e *wEnv) val(x ast.Expr) string {
+	switch v := x.(type) {
+	case *ast.ParenExpr:
+		return "(" + e.val(v.X) + ")"
+	case *ast.BasicLit:
+		if v.Kind == token.INT {
+			return "(" + v.Value + " : Int)"
+		}
+	case *ast.UnaryExpr:
+		if v.Op == token.SUB {
+			return "(-" + e.val(v.X) + ")"
+		}
+	case *ast.Ident:
+		if _, ok := e.params[v.Name]; ok {
+			return "a." + v.Name
+		}
+		if e.locals[v.Name] {
+			return "a." + v.Name
+		}
+	case *ast.CallExpr:
+		if id, ok := v.Fun.(*ast.Ident); ok && len(v.Args) == 1 {
+			switch id.Name {
+			case "int8", "int16", "int32", "int64", "int":
+				return e.val(v.Args[0])
+			case "milliseconds":
+				return "(milliseconds " + e.val(v.Args[0]) + ")"
+			case "sizeofString", "sizeofNullableString", "sizeofBytes", "sizeofInt32Array", "sizeofStringArray":
+				return "(" + id.Name + " " + e.val(v.Args[0]) + ")"
+			}
+		}
+	case *ast.SelectorExpr: // recordBatch.size
+		if id, ok := v.X.(*ast.Ident); ok && e.params[id.Name] == "RecordBatchBlob" && v.Sel.Name == "size" {
+			return "a." + id.Name + ".size"
+		}
+	case *ast.BinaryExpr:
+		if v.Op == token.ADD || v.Op == token.SUB || v.Op == token.MUL {
+			return "(" + e.val(v.X) + " " + v.Op.String() + " " + e.val(v.Y) + ")"
+		}
+	}
+	bad("writer expression %s", e.c.src(x))
+	return ""
+}
+
+// translateWriter returns the Lean text for one write*RequestV<N> function.
+func (c *lgCtx) translateWriter(fd *ast.FuncDecl) (out string, err error) {
+	defer func() {
+		if r := recover(); r != nil {
+			if u, ok := r.(untranslatable); ok {
+				err = u
+				return
+			}
+			panic(r)
+		}
+	}()
+	name := fd.Name.Name
+	// expected api key and version from the function's NAME
+	i := len(name)
+	for i > 0 && name[i-1] >= '0' && name[i-1] <= '9' {
+		i--
+	}
+	if i == len(name) || i < 1 || name[i-1] != 'V' {
+		bad("function name %s does not end in V<N>", name)
+	}
+	wantVer := name[i:]
+	api := strings.TrimSuffix(strings.TrimPrefix(name[:i-1], "write"), "Request")
+	wantKey, ok := writerAPIs[api]
+	if !ok {
+		bad("unknown API %q in function name %s", api, name)
+	}
+	e := &wEnv{c: c, params: map[string]string{}, locals: map[string]bool{}}
+	var order []string
+	codecParam := ""
+	sizeInv := false // the codec branch established `size = messageSetSize(msgs)`
+	msgLoop := false
+	sizeVar, attrVar, bufVar, msgsParam := "", "", "", ""
+	for _, p := range fd.Type.Params.List {
+		lt := ""
+		switch t := p.Type.(type) {
+		case *ast.Ident:
+			switch t.Name {
+			case "int8", "int16", "int32", "int64", "int":
+				lt = "Int"
+			case "string":
+				lt = "Bytes"
+			}
+		case *ast.SelectorExpr:
+			if c.src(t) == "time.Duration" {
+				lt = "Int"
+			}
+		case *ast.StarExpr:
+			switch c.src(t.X) {
+			case "string":
+				lt = "(Option Bytes)"
+			case "recordBatch":
+				lt = "RecordBatchBlob"
+			}
+		case *ast.Ellipsis:
+			if c.src(t.Elt) == "Message" && c.msgSetOK && len(p.Names) == 1 {
+				lt = "(List Message)"
+				msgsParam = p.Names[0].Name
+			}
+		}
+		if id, ok := p.Type.(*ast.Ident); ok && id.Name == "CompressionCodec" && c.msgSetOK && len(p.Names) == 1 {
+			codecParam = p.Names[0].Name // replaced by the values the codec branch leaves in size / attributes / msgs
+			continue
+		}
+		if lt == "" {
+			bad("parameter type %s", c.src(p.Type))
+		}
+		for _, n := range p.Names {
+			e.params[n.Name] = lt
+			order = append(order, n.Name)
+		}
+	}
+	hdr := map[string]string{}
+	size := ""
+	var writes []string
+	var prims []string
+	for _, st := range fd.Body.List {
+		switch s := st.(type) {
+		case *ast.DeclStmt:
+			// var size int32 / var attributes int8 / var compressed *bytes.Buffer
+			gd, ok := s.Decl.(*ast.GenDecl)
+			if !ok || gd.Tok != token.VAR || codecParam == "" {
+				bad("statement %s", c.src(st))
+			}
+			for _, sp := range gd.Specs {
+				vs := sp.(*ast.ValueSpec)
+				if len(vs.Values) != 0 {
+					bad("statement %s", c.src(st))
+				}
+				if id, ok := vs.Type.(*ast.Ident); ok && (id.Name == "int32" || id.Name == "int8") {
+					for _, n := range vs.Names {
+						e.locals[n.Name] = true
+						order = append(order, n.Name)
+						e.params[n.Name] = "Int"
+						if id.Name == "int32" {
+							sizeVar = n.Name
+						} else {
+							attrVar = n.Name
+						}
+					}
+				} else if c.src(vs.Type) == "*bytes.Buffer" && len(vs.Names) == 1 {
+					bufVar = vs.Names[0].Name
+				}
+			}
+			continue
+		case *ast.IfStmt:
+			// if codec == nil { size = messageSetSize(msgs...) } else { compressed, attributes, size, err = compressMessageSet(codec, msgs...); …; msgs = []Message{{Value: compressed.Bytes()}} }
+			norm := func(n ast.Node) string { return strings.Join(strings.Fields(c.src(n)), " ") }
+			blk, isBlk := s.Else.(*ast.BlockStmt)
+			if codecParam == "" || sizeVar == "" || attrVar == "" || bufVar == "" || msgsParam == "" || s.Init != nil || !isBlk ||
+				norm(s.Cond) != codecParam+" == nil" || len(s.Body.List) != 1 ||
+				norm(s.Body.List[0]) != sizeVar+" = messageSetSize("+msgsParam+"...)" {
+				bad("statement %s", c.src(st))
+			}
+			okCall, okMsgs := false, false
+			for _, es := range blk.List {
+				n := norm(es)
+				switch {
+				case strings.HasPrefix(n, bufVar+", "+attrVar+", "+sizeVar+", ") && strings.HasSuffix(n, " = compressMessageSet("+codecParam+", "+msgsParam+"...)"):
+					okCall = true
+				case n == msgsParam+" = []Message{{Value: "+bufVar+".Bytes()}}":
+					okMsgs = okCall
+				default:
+					if is, ok := es.(*ast.IfStmt); !ok || !strings.HasSuffix(norm(is.Cond), " != nil") {
+						bad("statement %s", c.src(es))
+					}
+				}
+			}
+			if !okCall || !okMsgs {
+				bad("codec branch does not leave size = messageSetSize(msgs): %s", c.src(st))
+			}
+			sizeInv = true
+			continue
+		case *ast.RangeStmt:
+			// for _, msg := range msgs { wb.writeMessage(msg.Offset, attributes, msg.Time, msg.Key, msg.Value, cw) }
+			norm := func(n ast.Node) string { return strings.Join(strings.Fields(c.src(n)), " ") }
+			if codecParam == "" || norm(s.Key) != "_" || s.Value == nil || norm(s.X) != msgsParam || len(s.Body.List) != 1 || attrVar == "" {
+				bad("statement %s", c.src(st))
+			}
+			m := norm(s.Value)
+			body := norm(s.Body.List[0])
+			if !strings.HasPrefix(body, "wb.writeMessage("+m+".Offset, "+attrVar+", "+m+".Time, "+m+".Key, "+m+".Value, ") {
+				bad("statement %s", c.src(st))
+			}
+			writes = append(writes, "(writeEach a."+msgsParam+" (fun msg => writeMessage a.crc msg.Offset a."+attrVar+" msg.Time msg.Key msg.Value))")
+			msgLoop = true
+			continue
+		case *ast.AssignStmt:
+			if codecParam != "" && s.Tok == token.DEFINE && len(s.Rhs) == 1 && strings.HasPrefix(strings.Join(strings.Fields(c.src(s.Rhs[0])), " "), "&crc32Writer{") {
+				continue
+			}
+			if len(s.Lhs) != 1 || len(s.Rhs) != 1 {
+				bad("statement %s", c.src(st))
+			}
+			if id, ok := s.Lhs[0].(*ast.Ident); ok && id.Name == "h" && s.Tok == token.DEFINE {
+				cl, ok := s.Rhs[0].(*ast.CompositeLit)
+				if !ok || c.src(cl.Type) != "requestHeader" {
+					bad("header literal %s", c.src(st))
+				}
+				for _, el := range cl.Elts {
+					kv, ok := el.(*ast.KeyValueExpr)
+					if !ok {
+						bad("header literal %s", c.src(st))
+					}
+					k := c.src(kv.Key)
+					switch k {
+					case "ApiKey", "ApiVersion":
+						// int16(<const>)
+						ce, ok := kv.Value.(*ast.CallExpr)
+						if !ok || len(ce.Args) != 1 {
+							bad("header field %s", c.src(kv))
+						}
+						cn := c.src(ce.Args[0])
+						if k == "ApiVersion" {
+							if !strings.HasPrefix(cn, "v") {
+								bad("header version %s", cn)
+							}
+							hdr[k] = "(" + cn[1:] + " : Int)"
+						} else {
+							kv2, ok := c.apiKeys[cn]
+							if !ok {
+								bad("api key constant %s", cn)
+							}
+							hdr[k] = fmt.Sprintf("(%d : Int)", kv2)
+						}
+					case "CorrelationID", "ClientID":
+						hdr[k] = e.val(kv.Value)
+					default:
+						bad("header field %s", k)
+					}
+				}
+				continue
+			}
+			if c.src(s.Lhs[0]) == "h.Size" && s.Tok == token.ASSIGN {
+				// (h.size() - 4) + …
+				txt := e.sizeSum(s.Rhs[0])
+				size = txt
+				continue
+			}
+			bad("statement %s", c.src(st))
+		case *ast.ExprStmt:
+			call, ok := s.X.(*ast.CallExpr)
+			if !ok {
+				bad("statement %s", c.src(st))
+			}
+			if codecParam != "" && c.src(st) == "releaseBuffer("+bufVar+")" {
+				continue
+			}
+			sel, ok := call.Fun.(*ast.SelectorExpr)
+			if !ok {
+				bad("statement %s", c.src(st))
+			}
+			recv := c.src(sel.X)
+			switch {
+			case recv == "h" && sel.Sel.Name == "writeTo":
+				writes = append(writes, "(requestHeader.writeTo { "+name+".hdr0 a with Size := "+name+".announced a })")
+			case recv == "wb":
+				switch sel.Sel.Name {
+				case "writeInt8", "writeInt16", "writeInt32", "writeInt64", "writeString", "writeNullableString", "writeBytes", "writeArrayLen":
+					if len(call.Args) != 1 {
+						bad("statement %s", c.src(st))
+					}
+					writes = append(writes, "("+sel.Sel.Name+" "+e.val(call.Args[0])+")")
+					pk := map[string]string{"writeInt8": ".i8", "writeInt16": ".i16", "writeInt32": ".i32", "writeInt64": ".i64", "writeString": ".str",
+						"writeNullableString": ".nstr", "writeBytes": ".bytes", "writeArrayLen": ".alen"}[sel.Sel.Name]
+					prims = append(prims, "("+pk+" "+e.val(call.Args[0])+")")
+				default:
+					bad("statement %s", c.src(st))
+				}
+			case e.params[recv] == "RecordBatchBlob" && sel.Sel.Name == "writeTo":
+				writes = append(writes, "(writeInt32 a."+recv+".size ++ a."+recv+".body)")
+				prims = append(prims, "(.blob a."+recv+")")
+			default:
+				bad("statement %s", c.src(st))
+			}
+		case *ast.ReturnStmt:
+			if len(s.Results) == 1 && c.src(s.Results[0]) == "wb.Flush()" {
+				continue
+			}
+			bad("statement %s", c.src(st))
+		default:
+			bad("statement %s", c.src(st))
+		}
+	}
+	for _, k := range []string{"ApiKey", "ApiVersion", "CorrelationID", "ClientID"} {
+		if hdr[k] == "" {
+			bad("header field %s missing", k)
+		}
+	}
+	if size == "" || len(writes) == 0 {
+		bad("no h.Size assignment / no writes")
+	}
+	if codecParam != "" && (!sizeInv || !msgLoop) {
+		bad("message-set writer without codec branch / message loop")
+	}
+	var sb strings.Builder
+	fmt.Fprintf(&sb, "structure %s.Args where\n", name)
+	for _, n := range order {
+		fmt.Fprintf(&sb, "  %s : %s\n", n, e.params[n])
+	}
+	if codecParam != "" {
+		fmt.Fprintf(&sb, "  crc : Bytes → Int\n")
+		fmt.Fprintf(&sb, "/-- the `requestHeader{…}` literal of %s -/\n", name)
+		fmt.Fprintf(&sb, "def %s.hdr0 (a : %s.Args) : requestHeader :=\n  { Size := 0, ApiKey := %s, ApiVersion := %s, CorrelationID := %s, ClientID := %s }\n",
+			name, name, hdr["ApiKey"], hdr["ApiVersion"], hdr["CorrelationID"], hdr["ClientID"])
+		fmt.Fprintf(&sb, "/-- `h.Size = …` (size, attributes, msgs: the values the `codec == nil` / compressed branch leaves) -/\ndef %s.announced (a : %s.Args) : Int :=\n  %s\n", name, name, strings.ReplaceAll(size, "HSIZE", "(requestHeader.size ("+name+".hdr0 a))"))
+		fmt.Fprintf(&sb, "def %s.bytes (a : %s.Args) : Bytes :=\n  %s\n", name, name, strings.Join(writes, " ++\n  "))
+		fmt.Fprintf(&sb, "/-- both branches of `if codec == nil` establish `size = messageSetSize(msgs)` (checked on the source: the plain branch assigns it,\ncompressMessageSet returns `messageSetSize(Message{Value: compressed})` and msgs becomes that one message); under it the size\nprefix announces exactly the bytes that follow -/\n")
+		fmt.Fprintf(&sb, "theorem %s.legacy_size (a : %s.Args) (hsize : a.SIZEVAR = messageSetSize a.MSGSVAR) : ((%s.bytes a).length : Int) = 4 + %s.announced a := by\n  have hm := messageSet_len a.crc a.ATTRVAR a.MSGSVAR\n  simp only [%s.bytes, %s.announced, %s.hdr0, requestHeader.size, milliseconds, hsize, List.length_append, Int.natCast_add]\n  simp only [requestHeader.writeTo, List.length_append, Int.natCast_add, len_writeInt16, len_writeInt32, len_writeString, len_writeArrayLen, hm, sizeofString]\n  omega\n",
+			name, name, name, name, name, name, name)
+		fmt.Fprintf(&sb, "theorem %s.legacy_header_version (a : %s.Args) : (%s.hdr0 a).ApiVersion = %s ∧ (%s.hdr0 a).ApiKey = %d := by\n  simp [%s.hdr0]\n",
+			name, name, name, wantVer, name, wantKey, name)
+		return strings.NewReplacer("SIZEVAR", sizeVar, "ATTRVAR", attrVar, "MSGSVAR", msgsParam).Replace(sb.String()), nil
+	}
+	fmt.Fprintf(&sb, "/-- the `requestHeader{…}` literal of %s (Size is assigned afterwards) -/\n", name)
+	fmt.Fprintf(&sb, "def %s.hdr0 (a : %s.Args) : requestHeader :=\n  { Size := 0, ApiKey := %s, ApiVersion := %s, CorrelationID := %s, ClientID := %s }\n",
+		name, name, hdr["ApiKey"], hdr["ApiVersion"], hdr["CorrelationID"], hdr["ClientID"])
+	fmt.Fprintf(&sb, "/-- `h.Size = …` -/\ndef %s.announced (a : %s.Args) : Int :=\n  %s\n", name, name, strings.ReplaceAll(size, "HSIZE", "(requestHeader.size ("+name+".hdr0 a))"))
+	fmt.Fprintf(&sb, "def %s.bytes (a : %s.Args) : Bytes :=\n  %s\n", name, name, strings.Join(writes, " ++\n  "))
+	fmt.Fprintf(&sb, "/-- the body as the flat sequence of writeBuffer calls after the header -/\ndef %s.prims (a : %s.Args) : List Prim :=\n  [%s]\n", name, name, strings.Join(prims, ", "))
+	fmt.Fprintf(&sb, "theorem %s.bytes_flat (a : %s.Args) : %s.bytes a = requestHeader.writeTo { %s.hdr0 a with Size := %s.announced a } ++ flat (%s.prims a) := by\n  simp [%s.bytes, %s.prims, flat, Prim.out]\n", name, name, name, name, name, name, name, name)
+	c.writerInfo = append(c.writerInfo, [3]string{name, fmt.Sprint(wantKey), wantVer})
+	fmt.Fprintf(&sb, "/-- the size prefix announces exactly the bytes that follow it -/\ntheorem %s.legacy_size (a : %s.Args) : ((%s.bytes a).length : Int) = 4 + %s.announced a := by\n  simp [%s.bytes, %s.announced, %s.hdr0, requestHeader.size, milliseconds]\n  try omega\n",
+		name, name, name, name, name, name, name)
+	fmt.Fprintf(&sb, "/-- the header carries the api key and the version the function is named after -/\ntheorem %s.legacy_header_version (a : %s.Args) : (%s.hdr0 a).ApiVersion = %s ∧ (%s.hdr0 a).ApiKey = %d := by\n  simp [%s.hdr0]\n",
+		name, name, name, wantVer, name, wantKey, name)
+	return sb.String(), nil
+}
+
+func (e *wEnv) sizeSum(x ast.Expr) string {
+	// h.size() appears as a call on h
+	switch v := x.(type) {
+	case *ast.BinaryExpr:
+		if v.Op == token.ADD || v.Op == token.SUB {
+			return "(" + e.sizeSum(v.X) + " " + v.Op.String() + " " + e.sizeSum(v.Y) + ")"
+		}
+	case *ast.ParenExpr:
+		return "(" + e.sizeSum(v.X) + ")"
+	case *ast.CallExpr:
+		if e.c.src(v) == "h.size()" {
+			return "HSIZE"
+		}
+	}
+	return e.val(x)
+}
+
+// ---------------------------------------------------------------------------------------------------------
+// the writeTo() body read a second time, as a schema: which Kafka type each write emits and which value it carries.
+// `T.ty t : Ty` / `T.val t : Val` (Model/Schema.lean) with `T.legacy_model : encode (T.ty t) (T.val t) = T.writeTo t`
+// make the hand-written writer an instance of the model encoder, hence (encode_eq_spec) of the Kafka reference.
+
+type tv struct{ ty, val string } // Lean expressions of type List Ty / List Val
+
+func cat(parts []tv) tv {
+	if len(parts) == 0 {
+		return tv{"([] : List Ty)", "([] : List Val)"}
+	}
+	var a, b []string
+	for _, p := range parts {
+		a = append(a, p.ty)
+		b = append(b, p.val)
+	}
+	return tv{"(" + strings.Join(a, " ++ ") + ")", "(" + strings.Join(b, " ++ ") + ")"}
+}
+
+func one(ty, val string) tv { return tv{"[" + ty + "]", "[" + val + "]"} }
+
+// schemaStmts mirrors writeStmts.
+func (e *lgEnv) schemaStmts(list []ast.Stmt) tv {
+	var parts []tv
+	for i := 0; i < len(list); i++ {
+		// `wb.writeInt32(int32(len(X)))` / `wb.writeArrayLen(len(X))` followed by `for _, y := range X { … }` is an array
+		if i+1 < len(list) {
+			if x, ok := e.lenWrite(list[i]); ok {
+				if rs, ok := list[i+1].(*ast.RangeStmt); ok && e.c.src(rs.X) == x {
+					if v, ok := rs.Value.(*ast.Ident); ok {
+						inner := &lgEnv{c: e.c, t: e.t, recv: e.recv, vars: map[string]string{}}
+						for k, vv := range e.vars {
+							inner.vars[k] = vv
+						}
+						inner.vars[v.Name] = "y"
+						el := inner.schemaStmts(rs.Body.List)
+						parts = append(parts, one("(.array false false "+elemTy(el)+")", "(.arr (some ("+e.expr(rs.X)+".map fun y => "+elemVal(el)+")))"))
+						i++
+						continue
+					}
+				}
+			}
+		}
+		parts = append(parts, e.schemaStmt(list[i]))
+	}
+	return cat(parts)
+}
+
+// lenWrite recognises a write of len(X) and returns the source text of X.
+func (e *lgEnv) lenWrite(st ast.Stmt) (string, bool) {
+	es, ok := st.(*ast.ExprStmt)
+	if !ok {
+		return "", false
+	}
+	call, ok := es.X.(*ast.CallExpr)
+	if !ok || len(call.Args) != 1 {
+		return "", false
+	}
+	sel, ok := call.Fun.(*ast.SelectorExpr)
+	if !ok || (sel.Sel.Name != "writeInt32" && sel.Sel.Name != "writeArrayLen") {
+		return "", false
+	}
+	a := call.Args[0]
+	for {
+		c, ok := a.(*ast.CallExpr)
+		if !ok || len(c.Args) != 1 {
+			return "", false
+		}
+		if id, ok := c.Fun.(*ast.Ident); ok {
+			if id.Name == "len" {
+				return e.c.src(c.Args[0]), true
+			}
+			if id.Name == "int32" || id.Name == "int" {
+				a = c.Args[0]
+				continue
+			}
+		}
+		return "", false
+	}
+}
+
+// an array element described by a field list: a single field stands for itself, several for a struct
+func elemTy(el tv) string {
+	if strings.HasPrefix(el.ty, "([") && strings.HasSuffix(el.ty, "])") && !strings.Contains(el.ty, "] ++ ") {
+		return el.ty[2 : len(el.ty)-2]
+	}
+	return "(.struct false " + el.ty + " [] [])"
+}
+func elemVal(el tv) string {
+	if strings.HasPrefix(el.ty, "([") && strings.HasSuffix(el.ty, "])") && !strings.Contains(el.ty, "] ++ ") {
+		return el.val[2 : len(el.val)-2]
+	}
+	return "(.struct " + el.val + " [])"
+}
+
+func (e *lgEnv) schemaStmt(st ast.Stmt) tv {
+	switch s := st.(type) {
+	case *ast.ExprStmt:
+		call, ok := s.X.(*ast.CallExpr)
+		if !ok {
+			break
+		}
+		sel, ok := call.Fun.(*ast.SelectorExpr)
+		if !ok {
+			break
+		}
+		if id, ok := sel.X.(*ast.Ident); ok && id.Name == "wb" && len(call.Args) >= 1 {
+			a := ""
+			if sel.Sel.Name != "writeArray" {
+				a = e.arg(call.Args[0])
+			}
+			switch sel.Sel.Name {
+			case "writeInt8":
+				return one(".int8", "(.int "+a+")")
+			case "writeInt16":
+				return one(".int16", "(.int "+a+")")
+			case "writeInt32":
+				return one(".int32", "(.int "+a+")")
+			case "writeInt64":
+				return one(".int64", "(.int "+a+")")
+			case "writeBool":
+				return one(".bool", "(.bool "+a+")")
+			case "writeString":
+				return one("(.string false false)", "(.str "+a+")")
+			case "writeBytes":
+				return one("(.bytes false false)", "(.bytes (some "+a+"))")
+			case "writeStringArray":
+				return one("(.array false false (.string false false))", "(.arr (some ("+a+".map .str)))")
+			case "writeInt32Array":
+				return one("(.array false false .int32)", "(.arr (some ("+a+".map .int)))")
+			case "writeArray":
+				if len(call.Args) == 2 {
+					arr, _, body, inner := e.arrayClosure(call.Args[0], call.Args[1])
+					el := inner.schemaStmts(body.List)
+					return one("(.array false false "+elemTy(el)+")", "(.arr (some ("+arr+".map fun x => "+elemVal(el)+")))")
+				}
+			}
+		}
+		if sel.Sel.Name == "writeTo" && len(call.Args) == 1 {
+			if l, ok := e.indexed(sel.X); ok {
+				ix := sel.X.(*ast.IndexExpr)
+				if n := elemTypeName(e.typeOfExpr(ix.X)); n != "" {
+					if e.c.versioned[n] {
+						bad("nested versioned type %s", n)
+					}
+					return one(n+".tyC", "("+n+".val "+l+")")
+				}
+			}
+			if t := e.typeOfExpr(sel.X); t != nil {
+				if id, ok := t.(*ast.Ident); ok {
+					if e.c.versioned[id.Name] {
+						bad("nested versioned type %s", id.Name)
+					}
+					e.t.nested = append(e.t.nested, id.Name)
+					return tv{id.Name + ".tyFs", "(" + id.Name + ".valFs " + e.expr(sel.X) + ")"}
+				}
+			}
+		}
+	case *ast.IfStmt:
+		if s.Init == nil && s.Else == nil {
+			in := e.schemaStmts(s.Body.List)
+			c := e.cond(s.Cond)
+			return tv{"(if " + c + " then " + in.ty + " else [])", "(if " + c + " then " + in.val + " else [])"}
+		}
+		// `if X == nil { wb.writeArrayLen(-1) } else { <one array write> }`: a nullable array
+		if blk, ok := s.Else.(*ast.BlockStmt); ok && s.Init == nil && len(s.Body.List) == 1 && len(blk.List) == 1 {
+			if strings.Contains(e.c.src(s.Body.List[0]), "writeArrayLen(-1)") {
+				in := e.schemaStmt(blk.List[0])
+				if strings.HasPrefix(in.ty, "[(.array false false ") && strings.HasPrefix(in.val, "[(.arr (some ") {
+					c := e.cond(s.Cond)
+					ty := "[(.array false true " + strings.TrimPrefix(in.ty, "[(.array false false ")
+					inner := strings.TrimSuffix(strings.TrimPrefix(in.val, "[(.arr "), ")]")
+					return tv{ty, "[(.arr (if " + c + " then none else " + inner + "))]"}
+				}
+			}
+		}
+	}
+	bad("schema of statement %s", e.c.src(st))
+	return tv{}
+}
+
+// nestedUnfold: the definitions of the struct fields spliced into t's schema (transitively), as simp-only arguments
+func (c *lgCtx) nestedUnfold(t *lgType) string {
+	seen := map[string]bool{}
+	var out []string
+	var walk func(names []string)
+	walk = func(names []string) {
+		for _, m := range names {
+			if seen[m] {
+				continue
+			}
+			seen[m] = true
+			out = append(out, m)
+			if mt, ok := c.types[m]; ok {
+				walk(mt.nested)
+			}
+		}
+	}
+	walk(t.nested)
+	sort.Strings(out)
+	r := ""
+	for _, m := range out {
+		r += fmt.Sprintf(", %s.tyFs, %s.valFs, %s.writeTo", m, m, m)
+	}
+	return r
+}
+
+// translateSchema emits T.ty / T.val and the theorem tying writeTo to the model encoder.
+func (c *lgCtx) translateSchema(t *lgType) (out string, err error) {
+	defer func() {
+		if r := recover(); r != nil {
+			if u, ok := r.(untranslatable); ok {
+				err = u
+				return
+			}
+			panic(r)
+		}
+	}()
+	rw, _ := recvOf(t.writeTo)
+	we := &lgEnv{c: c, t: t, recv: rw, vars: map[string]string{}}
+	f := we.schemaStmts(t.writeTo.Body.List)
+	var sb strings.Builder
+	n := t.name
+	fmt.Fprintf(&sb, "/-- the Kafka type %s.writeTo emits (for the version in `t.v`, if any) and the value it carries -/\n", n)
+	if c.versioned[n] {
+		fmt.Fprintf(&sb, "def %s.ty (t : %s) : Ty := .struct false %s [] []\n", n, n, f.ty)
+	} else {
+		if regexp.MustCompile(`\bt\.`).MatchString(f.ty) {
+			bad("schema of a type without version field depends on the value: %s", f.ty)
+		}
+		fmt.Fprintf(&sb, "def %s.tyFs : List Ty := %s\n", n, f.ty)
+		fmt.Fprintf(&sb, "def %s.valFs (t : %s) : List Val := %s\n", n, n, f.val)
+		fmt.Fprintf(&sb, "def %s.tyC : Ty := .struct false %s.tyFs [] []\n", n, n)
+		fmt.Fprintf(&sb, "@[simp] theorem %s.tyC_zeroSize : %s.tyC.zeroSize = false := rfl\n", n, n)
+		fmt.Fprintf(&sb, "def %s.ty (_ : %s) : Ty := %s.tyC\n", n, n, n)
+	}
+	if c.versioned[n] {
+		fmt.Fprintf(&sb, "def %s.val (t : %s) : Val := .struct %s []\n", n, n, f.val)
+	} else {
+		fmt.Fprintf(&sb, "def %s.val (t : %s) : Val := .struct (%s.valFs t) []\n", n, n, n)
+	}
+	if c.versioned[n] {
+		fmt.Fprintf(&sb, "@[simp] theorem %s.legacy_model (t : %s) : encode (%s.ty t) (%s.val t) = %s.writeTo t := by\n  simp only [%s.ty, %s.val, %s.writeTo%s]\n  legacy_model_rest\n", n, n, n, n, n, n, n, n, c.nestedUnfold(t))
+	} else {
+		unfold := fmt.Sprintf("%s.tyC, %s.val, %s.writeTo, %s.tyFs, %s.valFs", n, n, n, n, n) + c.nestedUnfold(t)
+		fmt.Fprintf(&sb, "@[simp] theorem %s.legacy_modelC (t : %s) : encode %s.tyC (%s.val t) = %s.writeTo t := by\n  simp only [%s]\n  legacy_model_rest\n", n, n, n, n, n, unfold)
+		fmt.Fprintf(&sb, "theorem %s.legacy_model (t : %s) : encode (%s.ty t) (%s.val t) = %s.writeTo t := %s.legacy_modelC t\n", n, n, n, n, n, n)
+	}
+	return sb.String(), nil
 }
